@@ -103,6 +103,12 @@ fn fast_bitmap_transfer(buffer: &mut Vec<u32>, width: usize, bitmap: BitmapEvent
     Ok(())
 }
 
+/// verif hook: lets the verification harness reach the private blit
+#[cfg(rdp_rs_verif)]
+pub fn verif_fast_bitmap_transfer(buffer: &mut Vec<u32>, width: usize, bitmap: BitmapEvent) -> RdpResult<()> {
+    fast_bitmap_transfer(buffer, width, bitmap)
+}
+
 /// Translate minifb mouse to rdp-rs
 fn get_rdp_pointer_down(window: &Window) -> PointerButton {
     if window.get_mouse_down(MouseButton::Left) {
